@@ -417,8 +417,13 @@ impl ZchState {
                     // chain has an activation output that is not empty. For empty outputs, do not
                     // do any backspacing.
                     self.zchd.zchd_characters_to_delete_on_next_activation += 1;
+                    // What a later followup has to erase: whatever earlier chords of the same
+                    // chain left behind, plus everything typed during this hold.
+                    if !is_prioritized_activation {
+                        self.zchd.zchd_prior_activation_output_count = 0;
+                    }
                     self.zchd.zchd_prior_activation_output_count +=
-                        self.zchd.zchd_input_keys.zchik_keys().len() as i16;
+                        self.zchd.zchd_characters_to_delete_on_next_activation;
                     kb.press_key(osc)?;
                 }
 
